@@ -118,8 +118,10 @@ type BytesV struct {
 
 // RowRef identifies a row of a table's initial (symbolic) contents.
 type RowRef struct {
-	Base string
-	Key  []*smt.Term
+	Base  string
+	Key   []*smt.Term
+	Table string      // table id (for row invariants)
+	TKey  []*smt.Term // the key the row was read at
 }
 
 // CoinsV is an sdk.Coins value seen as a total map denom -> amount. A literal slice
@@ -140,6 +142,7 @@ type StoreV struct {
 
 // IterV is a store iterator positioned on a materialised list of rows.
 type IterV struct {
+	ID   string
 	Rows []iterRow
 	Pos  int
 }
